@@ -25,7 +25,7 @@ func Run(ctx *core.Ctx) {
 	Families(ctx)
 	RecursionFamily(ctx)
 	LoopHelperFamily(ctx)
-	RandomTraces(ctx, ctx.Pick(1500, 30000))
+	RandomTraces(ctx, ctx.Pick(1500, 60000))
 }
 
 // RandomTraces records n random renders and validates them with TLC (M3).
